@@ -62,6 +62,23 @@ def run(repo, rep, tier):
     L.borrow(repo, rep, "R18.3", "C03", _c03.parser_details,
              ("unclosed-counts-one",))
     L.option_defaults_rule(repo, rep, "R18.2", ("enable_data_attributes", "restricted_namespace"))
+    cd_ = repo.func("chameleon.zpt.program.convert_data_attributes")
+    prm = [x.arg for x in cd_.node.args.args]
+    nsp = prm[2] if len(prm) > 2 else None
+    muts = [src(n)[:40] for n in ast.walk(cd_.node)
+            if isinstance(n, ast.Call) and isinstance(n.func, ast.Attribute)
+            and src(n.func.value) == nsp and n.func.attr in (
+                "pop", "popitem", "clear", "update", "setdefault")]
+    muts += [src(t_)[:40] for n in ast.walk(cd_.node)
+             if isinstance(n, (ast.Assign, ast.Delete)) for t_ in n.targets
+             if isinstance(t_, ast.Subscript) and src(t_.value) == nsp]
+    rep.check(nsp is not None and not muts, "R18.2", cd_.qualname, "the "
+              "prefix map of the element is only read (it is the map the "
+              "children inherit)", construct="prefix-map-read-only",
+              where=L.where(cd_), detail=str(muts))
+    from . import c11 as _c11
+    L.borrow(repo, rep, "R18.2", "C11", _c11._algebra,
+             ("delegates:split",))
     L.state_rule(repo, rep)
 
 
